@@ -334,7 +334,7 @@ func VfConfinement() {
 	seg := 3 + zzvf.Tier()
 	zzvf.Bound("segments_max", seg)
 	p, protected := vfConfinementWorld()
-	op := zzvf.Choice("operation", 18)
+	op := zzvf.Choice("operation", 19)
 	h := vfHostile("value", seg)
 	zzvf.Assume(vfHasDotSegment(h) || len(h) > 0 && h[0] == '/' || vfHasEncodedDots(h))
 	// bucket and key come from the request path, which the URL decoder refuses when it has dot segments (VfDecodeURL);
@@ -426,6 +426,9 @@ func VfConfinement() {
 		dst := "copy"
 		src := "bkt/x?versionId=../../" + h
 		_, err = p.CopyObject(vfCtx(), s3response.CopyObjectInput{Bucket: vfStr("bkt"), Key: &dst, CopySource: &src, ExpectedBucketOwner: vfStr("caller")})
+	case 18:
+		name = "admin ChangeBucketOwner bucket"
+		err = p.ChangeBucketOwner(vfCtx(), h, []byte("{}"))
 	}
 	_ = err
 	zzvf.Reach("returned")
